@@ -400,6 +400,28 @@ def check(run: Run) -> None:
     elif not ok:
         run.notes.append(f"proof obligation failed: {run.proof_failure.get('lemma')} ({run.proof_failure.get('file')})")
 
+    # the current endianness also governs scalars read as members of (compiled or interpreted) structures, after a switch on the same object
+    from dissect.cstruct import cstruct as _cstruct
+    n_struct = 0
+    for compiled in (True, False):
+        for e1, e2 in (("<", ">"), (">", "<"), ("<", "!")):
+            cs = _cstruct(endian=e1)
+            cs.load("struct main { uint16 a; uint32 b; int64 c; float f; uint16 d[2]; uint24 t; };", compiled=compiled)
+            data = bytes(range(1, 27))
+            for step, e in (("first parse", e1), ("after cs.endian = %r" % e2, e2), ("switched back", e1)):
+                cs.endian = e
+                n_struct += 1
+                v = cs.main(data)
+                bo = "little" if e == "<" else "big"
+                want = (int.from_bytes(data[0:2], bo), int.from_bytes(data[2:6], bo), int.from_bytes(data[6:14], bo, signed=True),
+                        [int.from_bytes(data[18:20], bo), int.from_bytes(data[20:22], bo)], int.from_bytes(data[22:25], bo))
+                got = (v.a, v.b, v.c, list(v.d), v.t)
+                out = v.dumps()
+                if got != want or out != data[:25]:
+                    failing_cases.add(-1)
+                    run.report("C05/struct-member-after-endian-switch", {"ops": [{"op": step, "compiled": compiled, "observed": [repr(got), out.hex()], "expected": [repr(want), data[:25].hex()]}],
+                               "definition": "struct main { uint16 a; uint32 b; int64 c; float f; uint16 d[2]; uint24 t; };", "endian0": e1})
+
     cov = run.coverage
     distinct = {(e0, repr(op)) for e0, ops, _ in results for op in ops if op[0] != "endian"}
     cov["evaluations"] = n_ops
@@ -413,7 +435,7 @@ def check(run: Run) -> None:
     cov["distribution"] = {"histories": len(results), "operations": n_ops, "type_names": len(types),
                            "impl_errors": sum(1 for _, _, outs in results for o in outs if o[0].startswith("err")),
                            "endian_switches": sum(1 for _, ops, _ in results for o in ops if o[0] == "endian"),
-                           "correspondence_mismatches": len(mism), "oracle_failing_histories": len(failing_cases)}
+                           "correspondence_mismatches": len(mism), "oracle_failing_histories": len(failing_cases), "struct_member_parses_across_endian_switches": n_struct}
     cov["samples"] = [{"endian0": e0, "ops": [repr(o) for o in ops[:4]], "observed": [repr(o)[:80] for o in outs[:4]]}
                       for e0, ops, outs in (results[0], results[len(types)], results[-1])]
     run.assumptions += ["endianness codes <, >, ! only (native @ = are outside the claimed domain)",
